@@ -748,3 +748,138 @@ Section ServeLevel.
     split; [exact A|]. unfold cview in B. rewrite NC in B. exact B.
   Qed.
 End ServeLevel.
+
+(** * 4. A COPY as the sequence of its OS calls *)
+
+Lemma nonempty_below_app c ds x : nonempty_below c ds = true -> nonempty_below c (ds ++ x) = true.
+Proof.
+  intro H. destruct (nonempty_below_spec _ _ H) as (q & -> & Hq).
+  unfold nonempty_below. rewrite <- app_assoc. rewrite strip_prefix_app.
+  destruct q; [congruence|reflexivity].
+Qed.
+
+Lemma copy_steps_owned colls i c ds st fin :
+  nth_error colls i = Some c -> nonempty_below c ds = true ->
+  forall es, cowned colls response i (copy_steps ds st es fin).
+Proof.
+  intros N B. induction es as [|e es IH]; cbn; [exact I|].
+  split; [exists c; split; [exact N|]; cbn [owns]; apply nonempty_below_app; exact B|].
+  intros [| |[|]|]; cbn; auto.
+Qed.
+
+(** every OS call of the COPY belongs to the client, whatever the calls return *)
+Lemma copy_prog_owned colls i c r dst rec ow qs qd :
+  nth_error colls i = Some c ->
+  segs_under c (rpath r) = Some qs -> segs_under c dst = Some qd ->
+  cowned colls response i (copy_prog c r dst rec ow).
+Proof.
+  intros N E1 E2. cbn. split.
+  - exists c. split; [exact N|]. cbn [owns]. rewrite E1, E2. reflexivity.
+  - intros [| | |[[[[ss n] ds] cr]|e]]; cbn; auto.
+    destruct (nonempty_below c ds) eqn:B; cbn; auto.
+    split; [exists c; split; [exact N|exact B]|]. intros _. apply (copy_steps_owned colls i c); auto.
+Qed.
+
+Lemma copy_entries_exec root ds st fin : forall es s' t,
+  copy_entries s' (hp root ds) st es = Some t ->
+  exec_prog root (copy_steps ds st es fin) s' = (Some t, fin).
+Proof.
+  induction es as [|e es IH]; intros s' t H.
+  - cbn in *. subst s'. reflexivity.
+  - cbn [copy_entries] in H. unfold copy_entry in H.
+    destruct (seto s' (hp root ds ++ fst e) (copy_shallow st (snd e))) as [s''|] eqn:E; [|discriminate].
+    cbn [copy_steps exec_prog act_step]. unfold hp in E. rewrite <- app_assoc in E. rewrite E. cbn [fst snd].
+    apply IH. exact H.
+Qed.
+
+(** the destination is ready for the walk (the argument inside CopyStepsProofs.copy_is_walk) *)
+Lemma copy_ready root sb r dst (rec : bool) ow ss n ds cr :
+  sorted_otree sb = true ->
+  copy_move_checks root sb (rpath r) dst ow = GOk (ss, n, ds, cr) ->
+  exists t,
+    seto (remo sb (hp root ds)) (hp root ds) (if rec then copy_tree (stamp r) n else copy_shallow (stamp r) n) = Some t /\
+    copy_walk (remo sb (hp root ds)) (hp root ds) (stamp r) n rec = Some t.
+Proof.
+  intros Hsb Hchk.
+  pose proof (checks_sorted root sb _ _ _ _ _ _ _ Hsb Hchk) as Hs.
+  assert (Hpar : is_dir (geto sb (hp root (parent ds))) = true /\ ds <> []).
+  { unfold copy_move_checks in Hchk.
+    destruct (segs_of (rpath r)) as [ss0|]; [|discriminate].
+    destruct (segs_of dst) as [ds0|]; [|discriminate].
+    destruct (is_prefix ss0 ds0 || is_prefix ds0 ss0) eqn:Epre; [discriminate|].
+    destruct (geto sb (hp root ss0)); [|discriminate].
+    destruct (is_dir (geto sb (hp root (parent ds0)))) eqn:Ed; cbn [negb] in Hchk; [|discriminate].
+    assert (ds0 = ds) by (destruct (exists_ (geto sb (hp root ds0))); [destruct ow|]; inversion Hchk; reflexivity).
+    subst ds0. split; [exact Ed|].
+    intros ->. destruct ss0; cbn in Epre; discriminate. }
+  destruct Hpar as [Hpar Hne].
+  assert (Hne' : hp root ds <> []) by (unfold hp; destruct ds; [congruence|]; destruct root; discriminate).
+  assert (Hd : is_dir (geto (remo sb (hp root ds)) (removelast (hp root ds))) = true).
+  { rewrite !is_dir_kind, abs_remo.
+    assert (Hrl : removelast (hp root ds) = hp root (parent ds)).
+    { unfold hp, parent. apply removelast_app. exact Hne. }
+    rewrite Hrl.
+    assert (Hnp : is_prefix (hp root ds) (hp root (parent ds)) = false).
+    { unfold hp. rewrite is_prefix_app_l.
+      destruct (is_prefix ds (parent ds)) eqn:E; [|reflexivity]. exfalso.
+      apply is_prefix_spec in E. destruct E as [suf E].
+      assert (Hl : List.length (parent ds) = List.length (ds ++ suf)) by (rewrite <- E; reflexivity).
+      unfold parent in Hl. rewrite app_length in Hl.
+      rewrite (app_removelast_last ""%string Hne) in Hl at 2. rewrite app_length in Hl. cbn in Hl. lia. }
+    rewrite Hnp. rewrite <- is_dir_kind. exact Hpar. }
+  destruct (seto_ok (hp root ds) (remo sb (hp root ds))
+              (if rec then copy_tree (stamp r) n else copy_shallow (stamp r) n) Hne' Hd) as [t Ht].
+  exists t. split; [exact Ht|]. rewrite <- Ht. destruct rec.
+  - apply copy_walk_is_copy_tree; auto. apply geto_remo_self. exact Hne'.
+  - apply copy_walk_shallow.
+Qed.
+
+(** Run alone on a sandbox with sorted listings, the OS-call program of a COPY ends in
+    the state, and with the response, of the one step [do_copy] of [DavServer.serve]. *)
+Theorem copy_prog_is_do_copy root c sb r dst rec ow qs qd :
+  sorted_otree sb = true ->
+  segs_under c (rpath r) = Some qs -> segs_under c dst = Some qd ->
+  exec_prog root (copy_prog c r dst rec ow) sb = do_copy root sb r dst rec ow.
+Proof.
+  intros Hsb E1 E2. apply segs_under_spec in E1. apply segs_under_spec in E2.
+  unfold copy_prog, do_copy. cbn [exec_prog act_step fst snd].
+  destruct (copy_move_checks root sb (rpath r) dst ow) as [[[[ss n] ds] cr]|e] eqn:Ec; [|reflexivity].
+  destruct (copy_move_checks_segs _ _ _ _ _ _ _ _ _ Ec) as [S1 S2].
+  rewrite E2 in S2. inversion S2; subst ds.
+  assert (B : nonempty_below c (c ++ qd) = true).
+  { unfold nonempty_below. rewrite strip_prefix_app. destruct qd as [|x qd']; [|reflexivity]. exfalso.
+    unfold copy_move_checks in Ec. rewrite E1, E2, !is_prefix_app_l in Ec.
+    destruct (is_prefix qs [] || is_prefix [] qs) eqn:Epre; [discriminate|].
+    apply orb_false_iff in Epre. destruct Epre as [_ X]. discriminate. }
+  rewrite B. cbn [exec_prog act_step fst snd].
+  destruct (copy_ready root sb r dst rec ow _ _ _ _ Hsb Ec) as (t & T1 & T2).
+  rewrite T1. unfold copy_walk in T2.
+  fold (hp root (c ++ qd)). apply copy_entries_exec. exact T2.
+Qed.
+
+(** A COPY that runs OS call by OS call among the steps of clients on disjoint
+    collections — interrupted between any two entries of its walk, for as long as the
+    scheduler likes — ends, once it has been given enough steps, with the response of
+    the one-step [do_copy] on the sandbox it started from, and its collection is what
+    [do_copy] makes of it. *)
+Theorem copy_interrupted root colls (PI : pairwise_incomparable colls = true)
+    (progs : list (tprog act result response)) s0 i c r dst rec ow qs qd :
+  cwf colls response (progs, s0) -> sorted_otree s0 = true ->
+  nth_error colls i = Some c -> nth_error progs i = Some (copy_prog c r dst rec ow) ->
+  segs_under c (rpath r) = Some qs -> segs_under c dst = Some qd ->
+  view_ok (geto s0 (root ++ c)) = true ->
+  exists n, forall sched, n <= count_occ Nat.eq_dec sched i ->
+    let g := trun (act_step root) (progs, s0) sched in
+    nth_error (fst g) i = Some (TRet (snd (do_copy root s0 r dst rec ow))) /\
+    geto (snd g) (root ++ c) = geto (fst (do_copy root s0 r dst rec ow)) (root ++ c).
+Proof.
+  intros W Hs NC NP E1 E2 K.
+  destruct (alone_exec root (copy_prog c r dst rec ow) progs s0 i NP) as [n Hn].
+  exists n. intros sched LE g.
+  assert (K' : cok (cview root colls i (snd (progs, s0)))) by (unfold cok, cview; cbn [snd]; rewrite NC; exact K).
+  destruct (clients_alone root colls response PI i sched (progs, s0) W K') as (A & B & _).
+  fold g in A, B. rewrite (Hn _ LE) in A, B. cbn [fst snd] in A, B.
+  rewrite (copy_prog_is_do_copy root c s0 r dst rec ow qs qd Hs E1 E2) in A, B.
+  rewrite (nth_upd_same _ _ _ _ NP) in A. split; [exact A|].
+  unfold cview in B. rewrite NC in B. exact B.
+Qed.
